@@ -680,7 +680,12 @@ def hist_configs(tier):
                         ('reset', 'wmass', 'reset'), ('T', 'P', 'wvol'), ('copy_like', 'T', 'wvol'), ('link', 'T', 'wvol'),
                         ('phases', 'link', 'wmass'), ('reset', 'link', 'wvol'), ('unlink', 'reset', 'wvol'),
                         ('link_flow', 'wmass', 'unlink'), ('link_TP', 'T', 'wvol'), ('link_phase', 'phase', 'wvol'), ('link_TP', 'wvol'),
-                        ('link_phase', 'wvol'), ('wvol', 'link_TP'), ('wmass', 'link_phase')]:
+                        ('link_phase', 'wvol'), ('wvol', 'link_TP'), ('wmass', 'link_phase'),
+                        # a phase sub-stream retrieved BEFORE a package reset and used again after it (seeded C11_6: the quick tier had
+                        # only the pairs, in which the sub-stream is first retrieved after the reset)
+                        ('wsub', 'reset', 'wsub'), ('subview', 'reset'), ('subview', 'reset', 'wsub'), ('subview', 'reset', 'reset', 'wmass'),
+                        ('subview', 'wvol', 'reset', 'T')]:
+                if 'subview' in seq and start != 'gl': continue
                 add(start, seq, 'all')
         else:
             for n in (1, 2, 3):
@@ -782,6 +787,9 @@ def histories(w, cfg):
             else:
                 s.vol[s.chemicals.IDs.index('Water')] = x
                 w.ensure(f'{tag}: volume written through vol[k] reads back', eq_or_fail(w, attempt(lambda: s.ivol['Water']), x))
+        elif op == 'subview':
+            # the stream of one phase (ms[phase]) is retrieved now and observed, like every live stream, after every later step
+            if multi and all(x_ is not s[ph] for _, x_ in live): live.append((f'sub[{ph}]', s[ph]))
         elif op == 'F_mass':
             x = w.real(f'x{n}', lo=0, lo_strict=True)
             s.F_mass = x
